@@ -78,9 +78,18 @@ def check_rename(case):
     while new in labs:
         k += 1
         new = f'renamed{k}_' + old
+    # a second circuit assembled from the very same Gate objects (gates are values: add_gate stores what it is given)
+    twin = core.Circuit()
+    for g in c.top_sort(inverse=True):
+        twin.add_gate(g)
+    twin.set_inputs(list(c.inputs))
+    twin.set_outputs(list(c.outputs))
+    twin_before = wellformed.snapshot(twin)
     ret = c.rename_gate(old, new)
     if ret is not c:
         raise Violation('rename_return', 'rename_gate does not return the circuit')
+    if wellformed.snapshot(twin) != twin_before:
+        raise Violation('rename_changes_other_circuit', f'renaming {old!r} in one circuit changed another circuit that holds the same Gate objects')
     f = lambda x: new if x == old else x
     exp = {
         'inputs': [f(x) for x in before['inputs']],
